@@ -6,6 +6,16 @@ import os
 ROOT = os.path.dirname(os.path.dirname(os.path.abspath(__file__)))
 
 CHECKS = {
+    "C11": dict(
+        technique="Coq proof (byte-level bit copy refines list-of-bool splice) + bounded-exhaustive differential correspondence",
+        text="Gallina model of slice.rs/buffer.rs on byte lists (bitwise copy, bulk copy with head/aligned/unaligned/tail branches, "
+             "BitBuffer growth, Bits view) with theorems against the naive list-of-bool splice/slice specification (Props/C11.v); "
+             "tied to /repo by differential execution that is exhaustive over (src_offset, dst_position, len) for 5-byte buffers "
+             "with the fill patterns the property names, random 64-byte buffers and BitBuffer/Bits operation sequences, each also "
+             "judged by an independent Python list-of-bool oracle.",
+        note="Trusted: Coq kernel + vm_compute, extraction + driver (cross-checked), Rust harness, Python oracle; Vec/slice indexing and "
+             "copy_from_slice modelled as list operations; 64-bit usize.",
+        design="6 (C11)"),
     "C20": dict(
         technique="Coq proof (round-trip theorems, all u64/i64) + differential correspondence model vs crate",
         text="Machine-checked round-trip theorems (Props/C20.v: C20_length, C20_ident, C20_boolean, C20_boolean_nonzero, "
